@@ -24,7 +24,7 @@ RULE = ('cases: dft2 / idft2 with input and output shapes drawn independently fr
         'real shifts in [-3,3], integer offsets in [-9,9], both flags, scalar / pair / default forms of alpha, shape, shift, offset, complex / float / int64 input, with and without out= (incl. a real buffer that must be refused), the call made on the caller\'s own array, bursts of repeated shapes with fresh '
         'offsets (coordinate cache); plus full-period round trips. distinct = (kind, shapes, α class per axis, shift/offset zero-ness, '
         'flags) signature with values; non-trivial = outside the region the test-suite samples (square α = 1/n isotropic, zero '
-        'shift and offset, fresh allocation)')
+        'shift and offset, fresh allocation) A ≈5 % sample (search tier: a leading block of 260 + a >32-key cache-churn sequence) comes from an extremes stream: samplings within 3e-5 … one ulp of 1/n on centred same-shape transforms, in-place out=f, 1-D-like arrays of up to 1025 rows (quick ≤ 100), data at 1e-150 … 1e150, int8…uint32 inputs at their limits, shifts within 1e-9 of integers, shifts to 1e3, offsets to ±1000, samplings 1e-9 … 10; all tolerances are relative to Σ|f|.')
 TRUSTED = ['np.dot / np.outer / np.exp / np.conj / np.multiply(out=) compute the products, sums and exponentials written in '
            'Model/Fourier.lean (observed through the 1e-9 relative tolerance of the correspondence, not proved)',
            'functools.lru_cache on _dft2_coords returns the arrays it was given (history independence is only observed: bursts of '
@@ -100,12 +100,77 @@ def _case(rng, kmax, prev=None):
     return {'kind': kind, 'shape': list(shape), 'oshape': list(oshape), 're': re, 'im': im, 'alpha': [ar, ac], 'aclass': [cr, cl],
             'shift': shift, 'offset': offset, 'unitary': unitary, 'out': outk == 'ok', 'out_kind': outk, 'forms': forms, 'dtype': dtype}
 
+def _blank(kind, shape, oshape, re, im, alpha, unitary, **kw):
+    c = {'kind': kind, 'shape': list(shape), 'oshape': list(oshape), 're': re, 'im': im, 'alpha': list(alpha), 'aclass': ['free', 'free'],
+         'shift': [0.0, 0.0], 'offset': [0, 0], 'unitary': unitary, 'out': False, 'out_kind': 'none', 'forms': {}, 'dtype': 'complex'}
+    c.update(kw); return c
+
+def _extreme(rng, heavy):
+    """the extremes stream: inputs a small random sample never reaches — samplings within 1e-5 .. one ulp of 1/n, in-place out=f,
+    hundreds to a thousand rows (1-D-like so that the call stays cheap), data at 1e-9 and 1e9, integer dtypes at their limits,
+    shifts within 1e-9 of integers, large shifts/offsets. `heavy` allows > 300 rows (search tier only)."""
+    t = int(rng.integers(0, 7))
+    unitary = bool(rng.integers(0, 2))
+    if t == 0:      # sampling close to, but not equal to, critical sampling; same shape, centred
+        shape = _shape(rng, 7)
+        d = [1e-5, 5e-6, 1e-6, 1e-7, -1e-6, -7e-6, 3e-5][int(rng.integers(0, 7))]
+        alpha = [(1.0 / shape[0]) * (1 + d), (1.0 / shape[1]) * (1 + (d if rng.integers(0, 2) else 0.0))]
+        if rng.integers(0, 4) == 0: alpha = [float(np.nextafter(1.0 / shape[0], 2.0)), float(np.nextafter(1.0 / shape[1], 0.0))]
+        re, im = _data(rng, shape)
+        return _blank('dft2', shape, shape, re, im, alpha, unitary, aclass=['near-1/n', 'near-1/n'],
+                      forms={'shape': 'none'} if rng.integers(0, 2) else {}, out_kind=['none', 'ok'][int(rng.integers(0, 2))])
+    if t in (1, 2):  # in-place transform out=f (the form of tests/test_fourier.py::test_dft2_out), incl. many rows
+        rows = [257, 300, 513, 1025][int(rng.integers(0, 4))] if (heavy and t == 1) else int([2, 5, 33, 64, 100][int(rng.integers(0, 5))])
+        shape = (rows, int(rng.integers(1, 4))) if rng.integers(0, 4) else (int(rng.integers(1, 4)), rows)
+        re, im = _data(rng, shape)
+        alpha = [1.0 / shape[0], 1.0 / shape[1]] if rng.integers(0, 2) else [float(rng.uniform(0.001, 0.01)), float(rng.uniform(0.05, 0.4))]
+        return _blank(['dft2', 'idft2'][int(rng.integers(0, 4) == 0)], shape, shape, re, im, alpha, unitary, out_kind='alias')
+    if t == 3:       # many rows / columns, general sampling, output shape unrelated
+        rows = int([200, 257, 400, 1025][int(rng.integers(0, 4))]) if heavy else int([65, 80, 100][int(rng.integers(0, 3))])
+        shape = (rows, int(rng.integers(1, 3))); oshape = (int(rng.integers(1, 4)), rows) if rng.integers(0, 2) else (rows, 1)
+        re, im = _data(rng, shape)
+        return _blank('dft2', shape, oshape, re, im, [float(rng.uniform(0.0005, 0.004)), float(rng.uniform(0.0005, 0.3))], unitary,
+                      shift=[float(rng.uniform(-3, 3)), float(rng.uniform(-3, 3))], offset=[int(rng.integers(-9, 10)), int(rng.integers(-9, 10))],
+                      out_kind=['none', 'ok'][int(rng.integers(0, 2))])
+    shape = _shape(rng, 7); oshape = _shape(rng, 7)
+    re, im = _data(rng, shape)
+    alpha = [float(rng.uniform(0.01, 0.6)), float(rng.uniform(0.01, 0.6))]
+    if t == 4:       # data scale 1e-9 / 1e9 / 1e-300-ish, complex
+        k = [1e-9, 1e9, 1e-150, 1e150][int(rng.integers(0, 4))]
+        return _blank(['dft2', 'idft2'][int(rng.integers(0, 2))], shape, oshape, [x * k for x in re], [x * k for x in im], alpha, unitary,
+                      shift=[float(rng.uniform(-3, 3)), 0.0])
+    if t == 5:       # integer dtypes at their limits
+        dt = ['int8', 'int16', 'int32', 'uint16', 'uint32'][int(rng.integers(0, 5))]
+        info = np.iinfo(dt)
+        v = rng.integers(max(info.min, -2 ** 31), min(info.max, 2 ** 32 - 1) + 1, shape[0] * shape[1])
+        v[0] = info.max; v[-1] = info.min
+        return _blank('dft2', shape, oshape, [float(x) for x in v], [0.0] * len(v), alpha, unitary, dtype=dt,
+                      offset=[int(rng.integers(-9, 10)), int(rng.integers(-9, 10))])
+    # shifts within 1e-9 of an integer / large shifts and offsets / tiny and large samplings
+    sh = [float(rng.integers(-3, 4)) + float([1e-9, -1e-9, 1e-12, 0.0][int(rng.integers(0, 4))]), float([1e3, -250.5, 0.5, 1e-9][int(rng.integers(0, 4))])]
+    al = [float([1e-9, 1e-3, 2.5, 10.0][int(rng.integers(0, 4))]), float(rng.uniform(0.01, 0.6))]
+    return _blank('dft2', shape, oshape, re, im, al, unitary, shift=sh, offset=[int([-9, 9, 100, -1000][int(rng.integers(0, 4))]), 0])
+
+def _churn(rng):
+    """more distinct (m, n, M, N) keys than the coordinate cache holds (32), then the first keys again"""
+    keys = [((int(a), int(b)), (int(d), int(e))) for a in (1, 2, 3) for b in (2, 3, 4) for d in (1, 3) for e in (2, 4)][:36]
+    out = []
+    for (sh, osh) in keys + keys[:6]:
+        re, im = _data(rng, sh)
+        out.append(_blank('dft2', sh, osh, re, im, [0.3, 0.2], True, shift=[0.25, -1.5], offset=[int(rng.integers(-3, 4)), int(rng.integers(-3, 4))]))
+    return out
+
 def generate(rng, tier):
-    n, kmax = {'quick': (300, 7), 'thorough': (8000, 12), 'search': (1500, 7)}[tier]
+    n, kmax = {'quick': (300, 7), 'thorough': (8000, 12), 'search': (700, 7)}[tier]
     out, prev = [], None
-    for _ in range(n):
+    if tier == 'search':                 # only run once a tie is already broken: the nasty inputs first
+        out += [_extreme(rng, True) for _ in range(260)] + _churn(rng)
+    for i in range(n):
         k = 16 if (tier == 'thorough' and rng.integers(0, 20) == 0) else kmax      # a 5 % tail of shapes up to 16
+        if tier != 'search' and i % 20 == 7:                                       # ≈ 5 % sample of the extremes stream
+            c = _extreme(rng, False); out.append(c); prev = None; continue
         c = _case(rng, k, prev); out.append(c); prev = c
+    if tier == 'thorough': out += [_extreme(rng, True) for _ in range(150)] + _churn(rng)
     return out
 
 def _full_period(c):
@@ -132,6 +197,9 @@ def tags(c):
     if c['offset'][0] != c['offset'][1]: t.append('off_r!=off_c')
     if c['alpha'][0] < 0 or c['alpha'][1] < 0: t.append('negative-alpha')
     for a in c['aclass']: t.append('alpha:' + a)
+    if c.get('out_kind') == 'alias': t.append('out=f (in place)')
+    if max(c['shape'] + c['oshape']) > 64: t.append('rows>64')
+    if max(c['shape'] + c['oshape']) > 256: t.append('rows>256')
     for k, v in c.get('forms', {}).items(): t.append(f'form:{k}={v}')
     if c.get('dtype', 'complex') != 'complex': t.append('dtype:' + c['dtype'])
     if c.get('out_kind') == 'float': t.append('out=real-buffer')
@@ -184,6 +252,14 @@ def _call(fn, c, x, **kw):
                      'buf_diff': float(np.max(np.abs(buf - fresh))) if buf.shape == fresh.shape else -1.0,
                      'arg_untouched': bool(info['arg_untouched'] and np.array_equal(x, x0))})
         fresh = r
+    elif ok == 'alias':
+        # transform in place: the caller passes the input array itself as the output buffer
+        y = np.array(x0, dtype=complex)
+        r = fn(y, out=y, **kw)
+        sc = float(np.max(np.abs(fresh))) if fresh.size else 0.0
+        info.update({'same_obj': bool(r is y), 'out_diff': float(np.max(np.abs(np.asarray(r) - fresh))) if r.shape == fresh.shape else -1.0,
+                     'buf_diff': float(np.max(np.abs(y - fresh))) if y.shape == fresh.shape else -1.0})
+        fresh = r
     elif ok == 'float':
         buf = np.zeros(tuple(c['oshape']), dtype=float)
         try:
@@ -199,6 +275,7 @@ def _input(c):
     dt = c.get('dtype', 'complex')
     if dt == 'float': return np.ascontiguousarray(f.real)
     if dt == 'int': return np.ascontiguousarray(f.real).astype(np.int64)
+    if dt != 'complex': return np.ascontiguousarray(f.real).astype(dt)
     return f
 
 def impl(c):
@@ -233,7 +310,9 @@ def requests(c, io):
     return [{'op': 'c01.idft2', **base}]
 
 def _tol(c):
-    return 1e-9 * (1.0 + float(np.sum(np.abs(_f(c)))))
+    """relative to the data scale only (so that nano- and giga-scale data are judged alike); grows mildly with the phase size"""
+    big = 1.0 + max(abs(x) for x in c['shift']) * max(abs(a) for a in c['alpha']) * max(c['shape'] + [abs(o) for o in c['offset']])
+    return 1e-9 * max(float(np.sum(np.abs(_f(c)))), 1e-300) * max(1.0, big / 1e3)
 
 def _model_arr(d): return (np.array([bitsf(x) for x in d['re']]) + 1j * np.array([bitsf(x) for x in d['im']])).reshape(d['shape'])
 
@@ -258,6 +337,13 @@ def ref_sum(f, alpha, oshape, shift, offset, sign):
     m, n = f.shape; M, N = oshape
     X = _coords(m) + LD(offset[0]); Y = _coords(n) + LD(offset[1])
     U = _coords(M) - LD(shift[0]); V = _coords(N) - LD(shift[1])
+    if m * n * M * N > 300000:
+        # same double sum, summed over x first and then over y (two extended-precision matrix products) to stay affordable
+        a1 = LD(2) * PI_LD * LD(alpha[0]) * np.outer(U, X); a2 = LD(2) * PI_LD * LD(alpha[1]) * np.outer(Y, V)
+        c1, s1, c2, s2 = np.cos(a1), sign * np.sin(a1), np.cos(a2), sign * np.sin(a2)
+        fr = f.real.astype(LD); fi = f.imag.astype(LD)
+        gr = c1 @ fr - s1 @ fi; gi = s1 @ fr + c1 @ fi
+        return gr @ c2 - gi @ s2, gr @ s2 + gi @ c2
     ph = (LD(alpha[0]) * U[:, None, None, None] * X[None, None, :, None]
           + LD(alpha[1]) * V[None, :, None, None] * Y[None, None, None, :])
     ang = LD(2) * PI_LD * ph
@@ -276,9 +362,9 @@ def oracle(c, io):
     if not io.get('input_untouched', True): return 'the caller\'s input array was modified'
     if io.get('real_out') not in (None, 'TypeError'):
         return f"a real-valued out= buffer was not refused with TypeError ({io['real_out']}): the complex result cannot be stored in it"
-    if c['out']:
+    if c['out'] or c.get('out_kind') == 'alias':
         if not io.get('same_obj'): return 'out= given but a different array was returned'
-        if not (0 <= io['out_diff'] <= 1e-13 * (1 + np.sum(np.abs(f))) and 0 <= io['buf_diff'] <= 1e-13 * (1 + np.sum(np.abs(f)))):
+        if not (0 <= io['out_diff'] <= 1e-12 * max(np.sum(np.abs(f)), 1e-300) and 0 <= io['buf_diff'] <= 1e-12 * max(np.sum(np.abs(f)), 1e-300)):
             return f"out= result differs from a fresh allocation by {io['out_diff']:.3e}"
     a = c['alpha']
     scale = np.sqrt(LD(abs(LD(a[0]) * LD(a[1]))))
